@@ -163,7 +163,9 @@ pub fn observe(results: &yara_x::ScanResults, sched: &Vec<bool>, specs: &[RuleSp
         others.push((Some(spec.ntags), trace_iter(r.tags(), |_| { k += 1; k - 1 })));
         let mut k = 0usize;
         others.push((Some(spec.nmeta), trace_iter(r.metadata(), |_| { k += 1; k - 1 })));
-        for p in r.patterns().include_private(true) {
+        // (iterating the patterns may itself panic on an inconsistent rule: then the traces above show it)
+        let pats: Vec<yara_x::Pattern> = catch(AssertUnwindSafe(|| r.patterns().include_private(true).collect::<Vec<_>>())).unwrap_or_default();
+        for p in pats {
             let mut k = 0usize;
             others.push((None, trace_iter(p.matches(), |_| { k += 1; k - 1 })));
         }
